@@ -16,6 +16,23 @@ impl<'a> Parser<'a> {
     }
 }
 
+impl<'a> Parser<'a> {
+    /// the state after consuming one token of `o`
+    spec fn advanced(&self, o: &Self) -> bool {
+        &&& self.same_tables(o)
+        &&& o.iter.toks().len() > 0
+        &&& self.iter.toks() == o.iter.toks().skip(1)
+        // C19: the line counter counts the line breaks consumed
+        &&& self.line == o.line + (if o.iter.toks()[0].kind == TokenKind::Eol { 1int } else { 0int })
+        &&& stream_ok(self.iter.toks(), self.input)
+        &&& self.line + self.iter.toks().len() <= usize::MAX
+        &&& valid_span(o.input, o.iter.toks()[0].span)
+        &&& (o.iter.toks()[0].kind != TokenKind::Eof ==> self.iter.toks().len() > 0 && o.iter.toks()[0].span.end <= self.iter.toks()[0].span.start)
+        &&& (o.iter.toks()[0].kind == TokenKind::Eof ==> self.iter.toks().len() == 0)
+        &&& ((o.iter.toks()[0].kind == TokenKind::HexInt || o.iter.toks()[0].kind == TokenKind::BinInt) ==> has_prefix2(tok_text(o.input, o.iter.toks()[0].span)))
+    }
+}
+
 /// C09: every location attached to the error lies within the source text on character boundaries
 spec fn spans_valid(e: ParseError, input: &str) -> bool {
     forall|i: int| 0 <= i < e.at@.len() ==> valid_span(input, #[trigger] e.at@[i])
@@ -79,23 +96,24 @@ impl<'a> Parser<'a> {
     }
 }
 
-/// every operand of the operator tree is a well-formed expression
-spec fn tree_wf_exprs(t: BinOpTree) -> bool
-    decreases t
-{
-    match t {
-        BinOpTree::Atom(e) => expr_wf(e),
-        BinOpTree::BinOp { op, left, right } => tree_wf_exprs(*left) && tree_wf_exprs(*right),
-        BinOpTree::Dummy => true,
-    }
+/// every operand of the operator sequence is a well-formed expression
+spec fn flat_wf(s: Seq<Tok>) -> bool {
+    forall|i: int| 0 <= i < s.len() ==> ((#[trigger] s[i]) matches Tok::A(e) ==> expr_wf(e))
 }
+spec fn tree_wf_exprs(t: BinOpTree) -> bool { flat_wf(t.flat()) }
 proof fn lemma_tree_to_expr_wf(t: BinOpTree)
-    requires t.wf(), tree_wf_exprs(t)
+    requires t.wf(), flat_wf(t.flat())
     ensures expr_wf(t.to_expr())
     decreases t
 {
     match t {
-        BinOpTree::BinOp { op, left, right } => { lemma_tree_to_expr_wf(*left); lemma_tree_to_expr_wf(*right); }
+        BinOpTree::BinOp { op, left, right } => {
+            let l = left.flat(); let r = right.flat(); let f = t.flat();
+            assert forall|i: int| 0 <= i < l.len() implies ((#[trigger] l[i]) matches Tok::A(e) ==> expr_wf(e)) by { assert(l[i] == f[i]); }
+            assert forall|i: int| 0 <= i < r.len() implies ((#[trigger] r[i]) matches Tok::A(e) ==> expr_wf(e)) by { assert(r[i] == f[l.len() + 1 + i]); }
+            lemma_tree_to_expr_wf(*left); lemma_tree_to_expr_wf(*right);
+        }
+        BinOpTree::Atom(e) => { assert(t.flat()[0] == Tok::A(e)); }
         _ => {}
     }
 }
